@@ -158,6 +158,8 @@ def flagListLoader (c : FlagClass) (cfg : NameCfg) (o : ListOpts) : Create (PyVa
         if o.allowSingleValue then listLoadItems o mapping [.str s]
         else .loadErr .typeLoad
       | _ => .loadErr .typeLoad
+      -- (instances of the flag class itself are iterable in CPython 3.12 — `Flag.__iter__` — and are
+      --  not sent to this model; every theorem about this loader is stated for plain data)
 
 /-- the `for case in cases` loop of `flag_dumper`: (cases_sum, result) -/
 def listDumpLoop (mapping : List (FlagCase × String)) (value : Nat) :
